@@ -3,7 +3,9 @@
 package commitlog
 
 // C09 seeded unit: seeded segment layouts (message counts, byte sizes, last
-// write times), every combination of the three limits incl. 0 = off, limits
+// write times - non-decreasing as one leader clock produces them, or
+// non-monotonic across segments as a sequence of leaders with skewed clocks
+// produces them), every combination of the three limits incl. 0 = off, limits
 // aimed at the layout's own boundaries (exactly at / one below / one above a
 // suffix sum, cutoffs between segments), repeated cleans with or without
 // appends in between, empty rolled active segment, restart with new limits.
@@ -26,6 +28,36 @@ type c09Batch struct {
 // reached MaxSegmentBytes) to predict the layout.  The prediction is only used
 // to aim the limits at interesting values; the oracle measures the real files.
 func c09Plan(rng *kit.RNG, maxSeg int64, ts *int64, nbatches int, planned []c09Seg) ([]c09Batch, []c09Seg) {
+	return c09PlanClk(rng, maxSeg, ts, nbatches, planned, nil)
+}
+
+// c09Skew models message timestamps assigned by a sequence of leaders whose
+// clocks differ: every "term" of 1..maxTerm append batches is stamped with the
+// reference clock plus that leader's offset, so last-write times go back and
+// forth from one segment to the next.
+type c09Skew struct {
+	off     int64
+	left    int
+	maxTerm int
+	terms   int
+}
+
+func (k *c09Skew) next(rng *kit.RNG) int64 {
+	if k == nil {
+		return 0
+	}
+	if k.left == 0 {
+		k.off = 10 * int64(rng.Range(-40, 40)) // multiples of 10: never equal to a cutoff (..5)
+		k.left = rng.Range(1, k.maxTerm)
+		k.terms++
+	}
+	k.left--
+	return k.off
+}
+
+// c09PlanClk is c09Plan with an optional leader-clock skew (nil = one clock,
+// non-decreasing timestamps).
+func c09PlanClk(rng *kit.RNG, maxSeg int64, ts *int64, nbatches int, planned []c09Seg, skew *c09Skew) ([]c09Batch, []c09Seg) {
 	var out []c09Batch
 	activeBytes := int64(0)
 	if len(planned) > 0 {
@@ -38,12 +70,13 @@ func c09Plan(rng *kit.RNG, maxSeg int64, ts *int64, nbatches int, planned []c09S
 		}
 		vlen := []int{6, 6, 10, 30, 80}[rng.Intn(5)]
 		bt := c09Batch{vlen: vlen}
+		off := skew.next(rng)
 		if rng.Chance(1, 3) {
 			*ts += 10 * int64(rng.Range(0, 8)) // gap between batches (0 = same instant)
 		}
 		for i := 0; i < n; i++ {
 			*ts += 10 * int64(rng.Range(0, 3))
-			bt.ts = append(bt.ts, *ts)
+			bt.ts = append(bt.ts, *ts+off)
 		}
 		out = append(out, bt)
 		if len(planned) == 0 || activeBytes >= maxSeg {
@@ -53,7 +86,7 @@ func c09Plan(rng *kit.RNG, maxSeg int64, ts *int64, nbatches int, planned []c09S
 		p := &planned[len(planned)-1]
 		p.Count += int64(n)
 		p.Bytes += int64(n) * c09RecBytes(vlen)
-		p.LastTS = *ts
+		p.LastTS = *ts + off
 		activeBytes = p.Bytes
 	}
 	return out, planned
@@ -74,11 +107,15 @@ func c09PickLimits(rng *kit.RNG, ps []c09Seg) c09Limits {
 		return
 	}
 	if on[0] {
+		lo, hi := ps[0].LastTS, ps[0].LastTS
+		for _, s := range ps {
+			lo, hi = min(lo, s.LastTS), max(hi, s.LastTS)
+		}
 		switch rng.Intn(6) {
 		case 0:
-			lim.Age = c09AgeFor(995) // nothing is old
+			lim.Age = c09AgeFor(lo - 5) // nothing is old
 		case 1:
-			lim.Age = c09AgeFor(ps[len(ps)-1].LastTS + 5) // everything is old
+			lim.Age = c09AgeFor(hi + 5) // everything is old
 		default:
 			j := rng.Intn(len(ps))
 			lim.Age = c09AgeFor(ps[j].LastTS + int64([]int{-5, 5}[rng.Intn(2)]))
@@ -113,12 +150,13 @@ func TestVerifC09Seeded(t *testing.T) {
 	rep := kit.NewReport("C09", "seeded")
 	defer rep.Write()
 	defer c09InstallTTL()()
-	rep.SetRule("seeded layouts: 1-10 segments built through the real Append (one batch per segment with MaxSegmentBytes=1, or natural rolling with MaxSegmentBytes in {120,300,700}), 1-6 messages and 50-760 bytes per segment, harness-chosen non-decreasing timestamps (equal instants included); every on/off combination of the age, message and byte limits, aimed at the layout's own boundaries (suffix sums -1/0/+1, cutoffs between segments, nothing/everything old); 1-3 rounds of Clean with optional appends, empty rolled active segment or restart with new limits in between, each followed by a second Clean; oracle from a raw parse of the files before/after: removed = prefix of whole segments, never the newest, necessity, sufficiency, survivors untouched, OldestOffset/NewestOffset, forward (uncommitted+committed) reads from 0 / new oldest / removed range / inside, reverse read; non-trivial = a clean removed >=1 segment; distinct = layout + limits")
+	rep.SetRule("seeded layouts: 1-10 segments built through the real Append (one batch per segment with MaxSegmentBytes=1, or natural rolling with MaxSegmentBytes in {120,300,700}), 1-6 messages and 50-760 bytes per segment, harness-chosen timestamps: in 3 of 5 cases non-decreasing (one leader clock, equal instants included), in the others stamped by a sequence of leaders with clocks skewed by up to +-400 (terms of 1-3 segments), i.e. last-write times NON-MONOTONIC across segments, always with an age limit; every on/off combination of the age, message and byte limits, aimed at the layout's own boundaries (suffix sums -1/0/+1, cutoffs just below/above a random segment's last write, nothing/everything old); 1-3 rounds of Clean with optional appends, empty rolled active segment or restart with new limits in between, each followed by a second Clean; oracle from a raw parse of the files before/after: removed = prefix of whole segments, never the newest, necessity (every removed segment: the log from it on violates a limit), sufficiency (age: the oldest survivor is not expired), survivors untouched, OldestOffset/NewestOffset, forward (uncommitted+committed) reads from 0 / new oldest / removed range / inside, reverse read; non-trivial = a clean removed >=1 segment; distinct = layout + limits")
 	rep.Assume("computeTTL (the package's own mock point) is pinned to a fixed instant and all message timestamps are chosen by the harness: no wall clock takes part")
+	rep.Assume("age limit with non-monotonic last-write times: retention works from the oldest end only and the documentation gives the age limit as a TTL per segment file, so (a) a segment is removed for age only if it is itself expired, (b) an expired segment BEHIND a retained unexpired one legitimately stays, and the property's 'afterwards every configured limit holds' is read for age as 'the OLDEST surviving segment is not expired, or only the newest segment remains'")
 	rep.Assume("timestamps never equal the age cutoff (a segment exactly as old as the limit is not specified by the documentation)")
 	rep.Assume("committed readers are only checked when the HW lies in the surviving suffix (retention is allowed to delete past the HW; what a committed reader does then is outside C09)")
 	root := kit.NewRNG(kit.Mix(kit.Seed(), 0xC09))
-	ncases := kit.Scale(1400, 4500)
+	ncases := kit.Scale(1700, 5400)
 	seeds := make([]uint64, ncases)
 	for i := range seeds {
 		seeds[i] = root.Uint64()
@@ -142,8 +180,25 @@ func c09RunSeeded(rep *kit.Report, seed uint64, idx int) {
 	if maxSeg > 1 {
 		nb = rng.Range(2, 24)
 	}
-	batches, planned := c09Plan(rng, maxSeg, &ts, nb, nil)
-	lim := c09PickLimits(rng, planned)
+	// 2 of 5 cases: a sequence of leaders with skewed clocks (last-write
+	// times non-monotonic across segments); these always get an age limit
+	var skew *c09Skew
+	if rng.Chance(2, 5) {
+		skew = &c09Skew{maxTerm: 3}
+		if maxSeg > 1 {
+			skew.maxTerm = 6
+		}
+		rep.Count("cases_with_skewed_leader_clocks", 1)
+	}
+	batches, planned := c09PlanClk(rng, maxSeg, &ts, nb, nil, skew)
+	pick := func() c09Limits {
+		lim := c09PickLimits(rng, planned)
+		for tries := 0; skew != nil && lim.Age == 0 && tries < 8; tries++ {
+			lim = c09PickLimits(rng, planned)
+		}
+		return lim
+	}
+	lim := pick()
 	e, err := newC09Env(rep, "seeded", maxSeg, lim)
 	if err != nil {
 		rep.Violation("C09:open-error", err.Error(), nil)
@@ -169,7 +224,7 @@ func c09RunSeeded(rep *kit.Report, seed uint64, idx int) {
 			switch rng.Intn(6) {
 			case 0, 1, 2:
 				var more []c09Batch
-				more, planned = c09Plan(rng, maxSeg, &ts, rng.Range(1, 6), planned)
+				more, planned = c09PlanClk(rng, maxSeg, &ts, rng.Range(1, 6), planned, skew)
 				if !run(more) {
 					return
 				}
@@ -179,7 +234,7 @@ func c09RunSeeded(rep *kit.Report, seed uint64, idx int) {
 					e.fail("C09:reopen", fmt.Sprintf("Close failed: %v", err), nil)
 					return
 				}
-				e.lim = c09PickLimits(rng, planned)
+				e.lim = pick()
 				e.opts = c09OptsAt(e.dir, "c09s", maxSeg, e.lim)
 				l, err := vfOpen(e.opts)
 				if err != nil {
@@ -212,6 +267,7 @@ func c09RunSeeded(rep *kit.Report, seed uint64, idx int) {
 		if !ok {
 			return
 		}
+		exposed := e.ageExposed
 		totalRemoved += k
 		switch {
 		case k == 0:
@@ -228,7 +284,7 @@ func c09RunSeeded(rep *kit.Report, seed uint64, idx int) {
 		if !ok {
 			return
 		}
-		if k2 != 0 {
+		if k2 != 0 && !exposed { // exposed: already reported by the first clean's sufficiency check
 			e.fail("C09:second-clean-removed", fmt.Sprintf("a second Clean with unchanged limits and cutoff removed %d more segments", k2), nil)
 		}
 		post, _ := e.scan("leftover check")
